@@ -369,7 +369,7 @@ def r6(prog, rep):
         c, sn = env.get("self.cosBeta"), env.get("self.sinBeta")
         ok = isinstance(c, Rat) and isinstance(sn, Rat) and (c * c + sn * sn - 1).is_zero()
         rep.ob("R6", "%s: cosBeta**2 + sinBeta**2 == 1" % loc, ok, fb.site(stmts[0]),
-               "residual " + ((c * c + sn * sn - 1).residual() if ok is not None and isinstance(c, Rat) else "?"), key="beta/" + loc + "/unit")
+               ("residual " + (c * c + sn * sn - 1).residual()) if isinstance(c, Rat) and isinstance(sn, Rat) else "cosBeta/sinBeta not representable: %r, %r" % (c, sn), key="beta/" + loc + "/unit")
         # cos is the projection of the unit radial displacement on unit grad psi
         dx, dz, fr, fz_ = ctx.sym("dxR"), ctx.sym("dxZ"), ctx.sym("f_R"), ctx.sym("f_Z")
         expect_c = (dx * fr + dz * fz_) / (ctx.call("sqrt", dx * dx + dz * dz) * ctx.call("sqrt", fr * fr + fz_ * fz_))
